@@ -213,6 +213,14 @@ def lattice_complex(rng, cutoff, modes, chains=('A', 'B')):
     return cg.Complex(res)
 
 
+def exact_at_cutoff(lines, cutoff):
+    """number of inter-chain heavy-atom pairs at a distance of exactly the cutoff (integer arithmetic on thousandths)"""
+    at = [a for a in millis(lines) if heavy(a[2])]
+    c2 = int(round(cutoff * 1000)) ** 2
+    return sum(1 for a, b in itertools.combinations(at, 2)
+               if a[0] != b[0] and sum((p - q) ** 2 for p, q in zip(a[3], b[3])) == c2)
+
+
 def lattice_pair(rng, cutoff):
     ref = lattice_complex(rng, cutoff, rng.choice([['exact'], ['exact', 'inside'], ['exact', 'outside', 'inside']]),
                           chains=rng.choice(CHAIN_PAIRS))
@@ -279,6 +287,7 @@ def cases(ctx):
         for k in range(ctx.scale(6, 40)):
             rl, dl, c = lattice_pair(rng, cutoff)
             out.append(fnat_case(rl, dl, c, f'lattice{cutoff:g}', via=rng.choice(['file', 'list']), default=(cutoff == 5.0 and k % 2 == 0)))
+            out[-1]['exact_pairs'] = [exact_at_cutoff(rl, c), exact_at_cutoff(dl, c)]
     out += malformed_cases(ctx)
     # ---- clashes
     for k in range(ctx.scale(24, 200)):
@@ -295,7 +304,11 @@ def cases(ctx):
         order = rng.choice([(ch[0], ch[1]), (ch[0], ch[1]), (ch[1], ch[0])])
         out.append(clash_case(ls, order[0], order[1], 'squeezed', default=(set(ch) == {'A', 'B'} and order == ('A', 'B') and rng.random() < 0.5)))
     for k in range(ctx.scale(8, 60)):
-        cx = lattice_complex(rng, 3.0, rng.choice([['inside'], ['outside'], ['inside', 'outside']]), chains=rng.choice(CHAIN_PAIRS))
+        for attempt in range(50):
+            cx = lattice_complex(rng, 3.0, rng.choice([['inside'], ['outside'], ['inside', 'outside']]), chains=rng.choice(CHAIN_PAIRS))
+            if clash_free_of_exact3(cx.lines()):
+                break
+            _STATS['regenerated_near_cutoff'] += 1
         ch = cx.chains()
         out.append(clash_case(cx.lines(), ch[0], ch[1], 'lattice3-off-cutoff'))
     # clash stream outside the domain: unknown chain, same chain twice, three chains
@@ -350,7 +363,8 @@ def search_cases(ctx):
             out.append(fnat_case(rl, dl, cutoff, 'search-' + fam, via='list'))
     for k in range(30):
         cx = lattice_complex(rng, 3.0, ['inside', 'outside'])
-        out.append(clash_case(cx.lines(), 'A', 'B', 'search-lattice3'))
+        if clash_free_of_exact3(cx.lines()):
+            out.append(clash_case(cx.lines(), 'A', 'B', 'search-lattice3'))
     return out
 
 
@@ -537,7 +551,9 @@ def distribution(recs):
             if isinstance(r.get('spec'), dict):
                 n_ref.append(r['spec'].get('n_ref', 0))
     cl = [r['impl']['value'] for r in recs if r['case']['op'] == 'clashes' and isinstance(r['impl'], dict) and isinstance(r['impl']['value'], int)]
+    ex = [r['case']['exact_pairs'] for r in recs if 'exact_pairs' in r['case']]
     return {'families': fam, 'fnat_values': vals, 'fnat_exceptions': errs,
+            'lattice_cases_with_pairs_exactly_at_cutoff': {'reference': sum(1 for e in ex if e[0] > 0), 'decoy': sum(1 for e in ex if e[1] > 0), 'of': len(ex)},
             'reference_contacts': {'min': min(n_ref) if n_ref else 0, 'max': max(n_ref) if n_ref else 0,
                                    'mean': round(sum(n_ref) / len(n_ref), 1) if n_ref else 0},
             'clash_counts': {'zero': sum(1 for v in cl if v == 0), 'positive': sum(1 for v in cl if v > 0), 'max': max(cl) if cl else 0},
